@@ -5,7 +5,7 @@ from collections.abc import Sequence
 from typing import Generic, TypeVar, cast
 
 import hugr.model as model
-from hugr.hugr.base import Hugr, Node
+from hugr.hugr.base import Hugr, Node, NodeData
 from hugr.hugr.node_port import InPort, OutPort
 from hugr.ops import (
     CFG,
@@ -19,12 +19,14 @@ from hugr.ops import (
     Const,
     Custom,
     DataflowBlock,
+    DataflowOp,
     ExitBlock,
     FuncDecl,
     FuncDefn,
     Input,
     LoadConst,
     LoadFunc,
+    Op,
     Output,
     Tag,
     TailLoop,
@@ -58,8 +60,9 @@ class ModelExport:
         """Export the node with the given node id."""
         node_data = self.hugr[node]
 
-        inputs = [self.link_name(InPort(node, i)) for i in range(node_data._num_inps)]
-        outputs = [self.link_name(OutPort(node, i)) for i in range(node_data._num_outs)]
+        num_inps, num_outs = _model_port_counts(node_data.op, node_data)
+        inputs = [self.link_name(InPort(node, i)) for i in range(num_inps)]
+        outputs = [self.link_name(OutPort(node, i)) for i in range(num_outs)]
         meta = []
 
         # Export JSON metadata
@@ -556,6 +559,24 @@ class ModelExport:
                 return op.val.to_model()
             case op:
                 return None
+
+
+def _model_port_counts(op: Op, node_data: NodeData) -> tuple[int, int]:
+    """The number of input and output ports a node has in the model: the value
+    ports of its signature (the control ports for a basic block). Static
+    function / constant ports and unconnected ports are not a matter of how
+    many links the node happens to have.
+    """
+    match op:
+        case Call():
+            return len(op.instantiation.input), len(op.instantiation.output)
+        case DataflowBlock():
+            return 1, len(op.sum_ty.variant_rows)
+        case DataflowOp():
+            sig = op.outer_signature()
+            return len(sig.input), len(sig.output)
+        case _:
+            return node_data._num_inps, node_data._num_outs
 
 
 def _mangle_name(node: Node, name: str) -> str:
